@@ -137,6 +137,9 @@ def wf_problems(c):
     if "undecodable-text" in c:
         return []
     P = []
+    L = struct.unpack("<d", bytes.fromhex(c["sequence_length"]))[0]
+    if not L > 0:       # load itself promises a positive sequence length (NaN is not)
+        P.append("sequence_length %r is not positive" % L)
     for name in c05.TABLE_ORDER:
         fixed, ragged, _ = c05.TABLES[name]
         n = len(c[name + "/" + ragged[0][0] + "_offset"]) - 1
@@ -474,16 +477,20 @@ class CorruptFamily(Family):
         return d
 
     def shrink(self, case):
-        d = case["desc"]
-        for name in c05.TABLE_ORDER:
-            t = d["tables"][name]
-            if t["n"] > 0 and not (name == "edges" and d["indexes"] is not None):
-                c = copy.deepcopy(case)
-                c["desc"]["tables"][name] = c05.drop_last_row(name, t)
-                yield c
+        # re-observing a candidate costs thousands of loads: only a few, coarse candidates
         if case["env"]["mode"] != "path":
             c = copy.deepcopy(case)
             c["env"]["mode"] = "path"
+            yield c
+        d = case["desc"]
+        big = [n for n in c05.TABLE_ORDER if d["tables"][n]["n"] > 0 and not (n == "edges" and d["indexes"] is not None)]
+        if big:
+            c = copy.deepcopy(case)
+            for n in big:
+                t = c["desc"]["tables"][n]
+                while t["n"] > 0:
+                    t = c05.drop_last_row(n, t)
+                c["desc"]["tables"][n] = t
             yield c
 
 
@@ -898,6 +905,13 @@ class Data(CorruptFamily):
             put(0, 1)
             put(n, vals[n] + 1)
             put(n, vals[n] - 1)
+        # sequence_length: special doubles (NaN, -NaN, +-inf, +-0, negative, denormal)
+        for it in lay.p["items"]:
+            if it["key"] == b"sequence_length" and it["array_len"] == 1:
+                for hx in ("000000000000f87f", "010000000000f0ff", "000000000000f07f", "000000000000f0ff",
+                           "0000000000000000", "0000000000000080", "000000000000f0bf", "0100000000000000"):
+                    if bytes.fromhex(hx) != base[it["array_start"]:it["array_start"] + 8]:
+                        eds.append([(it["array_start"], bytes.fromhex(hx))])
         # every data byte once (for small files), then random multi-byte edits
         nsys = len(eds)
         for pos in range(lay.data_start, lay.size):
